@@ -142,7 +142,7 @@ class C03(Prop):
     def cases(self, ctx):
         rng = ctx.rng
         quick = ctx.tier == "quick"
-        n = 900 if quick else 20000
+        n = 2400 if quick else 30000
         out = []
         stats = ctx.stats.setdefault("generator", {"formats": {}, "abc": {}, "nseq_max": 0, "alen_max": 0, "multi_block": 0, "annotated": 0})
         for i in range(n):
@@ -204,7 +204,10 @@ class C03(Prop):
             if t.get("chk") != "ok" or t.get("val") != "ok": return Failure("monitor", "re-read alignment not well formed chk=%s val=%s (%s)" % (t.get("chk"), t.get("val"), what))
             if t.get("rd2") != "eof": return Failure("monitor", "second read after the written alignment returned %s (%s)" % (t.get("rd2"), what))
             if t.get("rw") != "same": return Failure("monitor", "re-writing the re-read alignment gives different bytes (%s)" % what)
-            ambiguous_phylip = fmt in ("phylip", "phylips") and (kv.get("n") == "1" or int(kv.get("alen", "0")) <= 60)   # interleaved = sequential: documented eslEAMBIGUOUS
+            # PHYLIP autodetection is documented to fail (eslEAMBIGUOUS -> enoformat) when the file is consistent with both layouts: one sequence,
+            # one block, or as many lines per sequence as sequences (n blocks of n lines; then the content decides)
+            _n, _blocks = int(kv.get("n", "0")), (int(kv.get("alen", "0")) + 59) // 60
+            ambiguous_phylip = fmt in ("phylip", "phylips") and (_n == 1 or _blocks <= 1 or _blocks == _n)
             auto_ok = t.get("aopen") == "ok"
             if not auto_ok and not (t.get("aopen") == "enoformat" and ambiguous_phylip):
                 return Failure("monitor", "autodetection failed on library-written output: %s (%s)" % (t.get("aopen"), what))
